@@ -377,7 +377,7 @@ def r7_no_truthiness_on_ids(ctx):
 
 def r8_op_id_maps(ctx):
   R = 'C01.R8'
-  ctx.rule(R, 'op-id maps: one per subgraph, reset per call, updated after every transformation from its TransformationInfo', floor=4)
+  ctx.rule(R, 'op-id maps: one per subgraph, reset per call, updated after every transformation from its TransformationInfo', floor=3)
   f = ctx.repo.func(f'{PERF}._apply_single_transformation')
   ctx.instance(R)
   g = cfgmod.build(f.node)
@@ -394,20 +394,69 @@ def r8_op_id_maps(ctx):
       ctx.check(R, tinfo is not None and any(tinfo in ast.unparse(a) for a in c.args), c, f, c, f'{name} must be fed from the TransformationInfo returned by the transformation')
       ctx.check(R, any('subgraph_id' in ast.unparse(a) for a in c.args), c, f, c, f'{name} must be told the subgraph of the instruction')
   # (dispatch key and the fields of the TransformationInput: decision table C01.R12)
+  # The maps themselves, through the class's own functions and whatever representation they use (lists, arrays ...):
+  # create -> identity; update(g, start, n) -> positions from `start` on move by n in subgraph g only; the "first original
+  # operator at or after a position" query answers on the state these two built. Subgraphs of very different lengths stand
+  # next to each other. (How the maps are used - producer / consumer translation - is decided by C01.R14 / R15.)
   c = ctx.repo.func(f'{PERF}._create_op_id_map')
+  u = ctx.repo.func(f'{PERF}._update_op_id_map')
+  fo = ctx.repo.cls(PERF).methods.get('_first_original_op_at_or_after')
   ctx.instance(R)
   from sa.consteval import Obj  # pylint: disable=g-import-not-at-top
+  from sa.ndarr import NdArr  # pylint: disable=g-import-not-at-top
+  from sa import absint  # pylint: disable=g-import-not-at-top
   it = tables.interp(ctx)
-  for sizes in ([2], [2, 0, 3], []):
+
+  def at(m, g, i):
+    row = m[g] if isinstance(m, list) else (m.getitem(g) if isinstance(m, NdArr) else None)
+    if isinstance(row, NdArr):
+      return row.getitem(i)
+    return row[i] if isinstance(row, list) else None
+
+  def snapshot(selfo, sizes):
+    m = selfo.fields['_original_op_id_map']
+    try:
+      return [[at(m, g, i) for i in range(s)] for g, s in enumerate(sizes)]
+    except (IndexError, TypeError, KeyError):
+      return None
+  scenarios = [   # (operators per subgraph, [(subgraph, start, n) ...], [(subgraph, position) ...])
+      ([2], [], [(0, 0), (0, 1), (0, 2)]),
+      ([2, 0, 3], [(2, 1, 2)], [(2, 0), (2, 1), (2, 2), (2, 3), (2, 5), (1, 0), (0, 1)]),
+      ([], [], []),
+      ([6, 4, 1], [(1, 2, 1)], [(1, 2), (1, 3), (1, 5), (1, 0), (2, 0), (2, 1)]),
+      ([1, 6], [(0, 0, 2), (1, 5, 1), (0, 0, 1)], [(0, 0), (0, 3), (0, 4), (1, 5), (1, 6), (1, 7)]),
+      ([5, 1, 2], [(1, 1, 3), (2, 0, 2)], [(1, 0), (1, 1), (2, 0), (2, 2), (2, 3), (2, 4)]),
+  ]
+  for sizes, updates, queries in scenarios:
     selfo = Obj(PERF, {'_original_op_id_map': [], '_added_op_id_map': []})
     model = Obj('x:ModelT', {'subgraphs': [Obj('x:SubGraphT', {'operators': [f'op{k}' for k in range(s)]}) for s in sizes]})
     outs = it.outcomes(c, [selfo, model], copy_args=False)
-    om, am = selfo.fields['_original_op_id_map'], selfo.fields['_added_op_id_map']
+    want = [list(range(s)) for s in sizes]
+    got = snapshot(selfo, sizes) if len(outs) == 1 and outs[0].kind == 'return' else None
+    am = selfo.fields['_added_op_id_map']
     # (the added-op lists may be shared: only the entry appended last is ever read back - see the twin C01.twin_shared_added_lists)
-    ok = len(outs) == 1 and outs[0].kind == 'return' and om == [list(range(s)) for s in sizes] and am == [[] for _ in sizes] \
-        and len({id(x) for x in om}) == len(om)
-    ctx.check(R, ok, c.node, c, f'subgraphs with {sizes} operators -> original={om!r} added={am!r}',
-              'every subgraph needs its own identity map of len(operators) and its own (unshared) empty added-op list')
+    ok = got == want and isinstance(am, list) and len(am) == len(sizes) and all(isinstance(x, list) and not x for x in am)
+    if not ctx.check(R, ok, c.node, c, f'subgraphs with {sizes} operators -> positions {got!r}, added-op lists {am!r}',
+                     'after _create_op_id_map every operator of every subgraph must be at its own position and every subgraph must have an empty added-op list'):
+      continue
+    good = True
+    for g, start, n in updates:
+      outs = it.outcomes(u, [selfo, g, start, n], copy_args=False)
+      for i in range(start, sizes[g]):
+        want[g][i] += n
+      got = snapshot(selfo, sizes) if len(outs) == 1 and outs[0].kind == 'return' else None
+      good = ctx.check(R, got == want, u.node, u, f'subgraphs with {sizes} operators, _update_op_id_map({g}, {start}, {n}) -> positions {got!r}',
+                       f'expected {want!r}: every original operator of subgraph {g} at or after index {start} moves by {n}, nothing else moves')
+      if not good:
+        break
+    if not good or fo is None:
+      continue
+    for g, pos in queries:
+      outs = it.outcomes(fo, [selfo, g, pos], copy_args=False)
+      w = next((i for i, p_ in enumerate(want[g]) if p_ >= pos), sizes[g])
+      ok = len(outs) == 1 and outs[0].kind == 'return' and absint._is_num(outs[0].value) and outs[0].value == w  # pylint: disable=protected-access
+      ctx.check(R, ok, fo.node, fo, f'subgraphs with {sizes} operators after {updates}: positions of subgraph {g} are {want[g]}, query position {pos} -> {[o.short() for o in outs]}',
+                f'must return {w}: the first original operator of subgraph {g} whose current position is >= {pos}, else the number of its operators')
   t = ctx.repo.func(f'{PERF}.transform_graph')
   ctx.instance(R)
   gt = cfgmod.build(t.node)
@@ -416,23 +465,6 @@ def r8_op_id_maps(ctx):
   apply_ = [n for n in gt.nodes if any(common.call_name(cc).endswith('_apply_transformations') for cc in n.calls())]
   ok = len(resets) == 2 and len(create) == 1 and all(gt.every_path_passes(gt.entry.id, create[0].id, {r.id}) for r in resets) and apply_ and all(gt.every_path_passes(gt.entry.id, a.id, {create[0].id}) for a in apply_)
   ctx.check(R, ok, t.node, t, 'maps reset, then created, then used', 'transform_graph must start from fresh op-id maps (a second call would otherwise append to the first call\'s maps)')
-  u = ctx.repo.func(f'{PERF}._update_op_id_map')
-  ctx.instance(R)
-  sl = [n for n in common.walk_no_nested(u.node) if isinstance(n, ast.AugAssign) and isinstance(n.target, ast.Subscript) and isinstance(n.target.slice, ast.Slice)]
-  ok = len(sl) == 1 and sl[0].target.slice.upper is None and ast.unparse(sl[0].target.slice.lower) == u.pos_params[2] and ast.unparse(sl[0].value) == u.pos_params[3] and isinstance(sl[0].op, ast.Add)
-  ctx.check(R, ok, u.node, u, 'map[start:] += n', 'every original operator at or after the start index must move by the number of added ops')
-  wr = [n for n in common.walk_no_nested(u.node) if isinstance(n, ast.Assign) and '_original_op_id_map' in ast.unparse(n.targets[0])]
-  ctx.check(R, len(wr) == 1 and f'[{u.pos_params[1]}]' in ast.unparse(wr[0].targets[0]), u.node, u, 'written back to the same subgraph', 'the shifted map must be stored for the same subgraph')
-  fo = ctx.repo.cls(PERF).methods.get('_first_original_op_at_or_after')
-  if fo is not None:
-    ctx.instance(R)
-    it2 = tables.interp(ctx)
-    for m, pos in (([0, 1, 3, 4], 2), ([0, 1, 3, 4], 3), ([0, 1, 3, 4], 5), ([2, 3], 0), ([], 0), ([0, 2, 2], 2)):
-      so = Obj(PERF, {'_original_op_id_map': [[9], list(m)]})
-      outs = it2.outcomes(fo, [so, 1, pos], copy_args=False)
-      want = next((i for i, p in enumerate(m) if p >= pos), len(m))
-      ok = len(outs) == 1 and outs[0].kind == 'return' and outs[0].value == want
-      ctx.check(R, ok, fo.node, fo, f'map {m}, position {pos} -> {[o.short() for o in outs]}', f'must return {want}: the first original op whose current position is >= the insert position, else len(map)')
 
 
 def r17_new_tensor_names(ctx, R='C01.R17'):
